@@ -561,7 +561,24 @@ pub fn mutate(r: &mut Rng, w: &Wallet, tx: &mut Transaction, inputs_known: &[WCo
             sign(w, tx, &ins);
         }
     };
-    match r.below(16) {
+    match r.below(18) {
+        16 | 17 if !tx.inputs.is_empty() => {
+            // a faucet is exempt from balancing but its inputs still need their covenants' approval
+            tx.kind = TxKind::Faucet;
+            if r.chance(1, 2) {
+                tx.covenants.clear();
+            } else {
+                resign(tx);
+                if let Some(s) = tx.sigs.get_mut(0) {
+                    let mut v = s.to_vec();
+                    if !v.is_empty() {
+                        v[1] ^= 4;
+                    }
+                    *s = v.into();
+                }
+            }
+            "faucet-with-unauthorised-inputs"
+        }
         0 if !tx.inputs.is_empty() => {
             let i = tx.inputs[0];
             tx.inputs.push(i);
@@ -638,7 +655,7 @@ pub fn mutate(r: &mut Rng, w: &Wallet, tx: &mut Transaction, inputs_known: &[WCo
             "rotate-inputs"
         }
         12 => {
-            tx.kind = *r.pick(&[TxKind::Normal, TxKind::Swap, TxKind::LiqDeposit, TxKind::LiqWithdraw, TxKind::Stake, TxKind::DoscMint]);
+            tx.kind = *r.pick(&[TxKind::Normal, TxKind::Swap, TxKind::LiqDeposit, TxKind::LiqWithdraw, TxKind::Stake, TxKind::DoscMint, TxKind::Faucet, TxKind::Faucet]);
             resign(tx);
             "change-kind"
         }
